@@ -23,23 +23,39 @@ CAPS = {"quick": 1 << 14, "thorough": 1 << 18}
 def instances(tier: str) -> list[dict]:
     out = []
 
-    def add(tree, naming, max_s, max_o, kinds=("named", "sub"), shapes=SHAPES, alias=True):
+    def add(tree, naming, max_s, max_o, kinds=("named", "sub"), shapes=SHAPES, alias=True, window_imported=0):
         nodes = concrete(tree, naming)
+        wrnd = random.Random(runner.seed() * 5 + len(tree) + len(naming))
         for sk, S, ok, O in unrelated_filter_sets(nodes, max_s, max_o, kinds):
             for verb, direction, exc in shapes:
-                out.append({"tree": tree, "naming": naming, "spec": RuleSpec(verb, direction, exc, sk, S, ok, O).as_json()})
+                spec = RuleSpec(verb, direction, exc, sk, S, ok, O)
+                inst = {"tree": tree, "naming": naming, "spec": spec.as_json()}
+                if window_imported and direction == "imported":
+                    # the be-imported-by searches follow importers transitively and inspect every variable: beyond
+                    # the quick tier's path budget on the full relation of a five-module tree -> symbolic window
+                    win, bg = sensitive_window(wrnd, nodes, spec, window_imported, force=deep_self_imports(nodes))
+                    inst.update({"nodes": nodes, "window": [list(p) for p in win], "background": [list(p) for p in bg]})
+                out.append(inst)
         if alias:
+            def put(spec):
+                inst = {"tree": tree, "naming": naming, "spec": spec.as_json()}
+                if window_imported and (spec.direction == "imported" or len(nodes) - len([n for n in nodes if not any(n == s or n.startswith(s + ".") for s in spec.subjects)]) >= 4):
+                    # (also 'import anything' of a subject that covers most of the tree: every variable is inspected)
+                    win, bg = sensitive_window(wrnd, nodes, spec, window_imported, force=deep_self_imports(nodes))
+                    inst.update({"nodes": nodes, "window": [list(p) for p in win], "background": [list(p) for p in bg]})
+                out.append(inst)
+
             for sk in kinds:
                 for s in nodes:
                     for direction in ("import", "imported"):
-                        out.append({"tree": tree, "naming": naming, "spec": RuleSpec("should_not", direction, False, sk, (s,), "named", (), True).as_json()})
+                        put(RuleSpec("should_not", direction, False, sk, (s,), "named", (), True))
             # batched aliases (2-3 unrelated subjects); imports between the subjects are don't-care (two readings)
             for ns in (2, 3):
                 for S in itertools.combinations(nodes, ns):
                     if any(related(a, b) for a, b in itertools.combinations(S, 2)):
                         continue
                     for direction in ("import", "imported"):
-                        out.append({"tree": tree, "naming": naming, "spec": RuleSpec("should_not", direction, False, "named", S, "named", (), True).as_json()})
+                        put(RuleSpec("should_not", direction, False, "named", S, "named", (), True))
 
     def add_side_related(tree, naming, max_s, max_o, kinds=("named",), window=0):
         # a NAMED module listed together with one of its own descendants on ONE side (subjects and objects stay
@@ -78,8 +94,8 @@ def instances(tier: str) -> list[dict]:
         add_side_related("T5h", "adv", 2, 2, window=11)
         add("T4", "neutral", 2, 2)
         add("T4", "adv", 2, 2)
-        add("T5a", "neutral", 1, 1)
-        add("T5b", "adv", 1, 1)
+        add("T5a", "neutral", 1, 1, window_imported=12)
+        add("T5b", "adv", 1, 1, window_imported=12)
         add("F4", "neutral", 2, 2, kinds=("named",))
     else:
         for t in ("T5e", "T6c", "T6a"):
